@@ -169,6 +169,62 @@ fn band_files(m: &BTreeMap<String, FsItem>, b: u32) -> BTreeMap<String, FsItem> 
         .collect()
 }
 
+/// The oracle for a delete that ran to its end without faults.
+fn judge_real_delete(run: &Run, a: &Arch, d: &[u32], r: &DelRun, before: &BTreeMap<String, FsItem>, replay: &Value) -> bool {
+        if let Some(p) = &r.out.panic {
+            run.violation(format!("delete-panic:{}", panic_site(p)), p.clone(), replay.clone());
+            return false;
+        }
+        if !r.out.ok() {
+            run.violation("delete-err", format!("fault-free delete {d:?} failed: {}", r.out.describe()), replay.clone());
+            return false;
+        }
+        let after = fmt06::dir_bytes(&r.arch);
+        for b in &a.bands {
+            let bf = band_files(&after, *b);
+            if d.contains(b) {
+                if !bf.is_empty() {
+                    run.violation("deleted-band-still-present", format!("b{b:04}"), replay.clone());
+                    return false;
+                }
+            } else if bf != band_files(before, *b) {
+                run.violation("kept-band-altered", format!("b{b:04}"), replay.clone());
+                return false;
+            }
+        }
+        if after.contains_key("GC_LOCK") {
+            run.violation("lock-left-behind", "GC_LOCK exists after a completed delete", replay.clone());
+            return false;
+        }
+        let raw = fmt06::read_archive(&r.arch, false);
+        let referenced = raw.referenced_blocks(raw.bands.keys().copied());
+        let present: BTreeSet<String> = raw.blocks.keys().cloned().collect();
+        if let Some(lost) = referenced.difference(&present).next() {
+            run.violation("referenced-block-removed", format!("block {} is referenced by a kept band but gone", &lost[..12]), replay.clone());
+            return false;
+        }
+        if let Some(extra) = present.difference(&referenced).next() {
+            run.violation("unreferenced-block-remains", format!("block {} is referenced by nothing but still there", &extra[..12]), replay.clone());
+            return false;
+        }
+        let stats = r.out.value().unwrap();
+        run.count("blocks_deleted", stats.deleted_block_count as u64);
+        if stats.deleted_block_count > 0 {
+            run.count("deletes_that_removed_blocks", 1);
+        }
+        if present.len() > 0 && stats.deleted_block_count > 0 {
+            run.count("deletes_with_shared_blocks_kept", 1);
+        }
+        match kept_intact(&r.arch, a, d, &a.world.sc) {
+            Ok(n) => run.count("kept_versions_restored", n),
+            Err((c, det)) => {
+                run.violation(format!("after-delete:{c}"), det, replay.clone());
+                return false;
+            }
+        }
+        true
+}
+
 fn one_subset(run: &Run, a: &Arch, case: u64, si: usize, d: &[u32]) {
     let before = fmt06::dir_bytes(&a.world.arch);
     let base_replay = json!({"case": case, "subset": si, "delete": d, "history": a.desc});
@@ -214,60 +270,7 @@ fn one_subset(run: &Run, a: &Arch, case: u64, si: usize, d: &[u32]) {
     run.eval();
     run.count("real_deletes", 1);
     let trace = r.log.clone();
-    let ok = (|| {
-        if let Some(p) = &r.out.panic {
-            run.violation(format!("delete-panic:{}", panic_site(p)), p.clone(), base_replay.clone());
-            return false;
-        }
-        if !r.out.ok() {
-            run.violation("delete-err", format!("fault-free delete {d:?} failed: {}", r.out.describe()), base_replay.clone());
-            return false;
-        }
-        let after = fmt06::dir_bytes(&r.arch);
-        for b in &a.bands {
-            let bf = band_files(&after, *b);
-            if d.contains(b) {
-                if !bf.is_empty() {
-                    run.violation("deleted-band-still-present", format!("b{b:04}"), base_replay.clone());
-                    return false;
-                }
-            } else if bf != band_files(&before, *b) {
-                run.violation("kept-band-altered", format!("b{b:04}"), base_replay.clone());
-                return false;
-            }
-        }
-        if after.contains_key("GC_LOCK") {
-            run.violation("lock-left-behind", "GC_LOCK exists after a completed delete", base_replay.clone());
-            return false;
-        }
-        let raw = fmt06::read_archive(&r.arch, false);
-        let referenced = raw.referenced_blocks(raw.bands.keys().copied());
-        let present: BTreeSet<String> = raw.blocks.keys().cloned().collect();
-        if let Some(lost) = referenced.difference(&present).next() {
-            run.violation("referenced-block-removed", format!("block {} is referenced by a kept band but gone", &lost[..12]), base_replay.clone());
-            return false;
-        }
-        if let Some(extra) = present.difference(&referenced).next() {
-            run.violation("unreferenced-block-remains", format!("block {} is referenced by nothing but still there", &extra[..12]), base_replay.clone());
-            return false;
-        }
-        let stats = r.out.value().unwrap();
-        run.count("blocks_deleted", stats.deleted_block_count as u64);
-        if stats.deleted_block_count > 0 {
-            run.count("deletes_that_removed_blocks", 1);
-        }
-        if present.len() > 0 && stats.deleted_block_count > 0 {
-            run.count("deletes_with_shared_blocks_kept", 1);
-        }
-        match kept_intact(&r.arch, a, d, &a.world.sc) {
-            Ok(n) => run.count("kept_versions_restored", n),
-            Err((c, det)) => {
-                run.violation(format!("after-delete:{c}"), det, base_replay.clone());
-                return false;
-            }
-        }
-        true
-    })();
+    let ok = judge_real_delete(run, a, d, &r, &before, &base_replay);
     crate::scratch::rm(&r.arch);
     if !ok {
         return;
@@ -350,9 +353,58 @@ fn snapshot_sig(s: &BTreeMap<u32, Snapshot>) -> usize {
     s.len()
 }
 
+/// Scale: versions of more than 10 000 index hunks (two hunk subdirectories): gc, delete of
+/// the newer and of the older version, each fault-free, judged like any other delete.
+fn many_hunks(run: &Run) {
+    let mut w = crate::history::many_hunks_world("c05big", run.seed);
+    let o = crate::history::MANY_HUNKS_OPTS;
+    let mut desc = Vec::new();
+    let r = w.backup(o);
+    assert!(r.backup.as_ref().unwrap().clean(), "scale backup failed");
+    desc.push(format!("[10 040-file tree, 1 entry per hunk] {}", r.desc));
+    let mut spec = w.spec.clone();
+    for i in [3u32, 4_999, 9_999, 10_000, 10_039] {
+        let mut n = crate::tree::Node::file(format!("changed {i}").into_bytes());
+        n.mtime_s = 1_700_000_000 + i as i64;
+        spec.insert(format!("/f{i:05}"), n);
+    }
+    spec.remove("/f00007");
+    spec.remove("/f10001");
+    w.set_spec(spec);
+    let r = w.backup(o);
+    desc.push(r.desc.clone());
+    if !r.backup.as_ref().unwrap().clean() {
+        run.violation("many-hunks-backup-not-clean", r.backup.as_ref().unwrap().describe(), json!({"many_hunks": true}));
+        return;
+    }
+    let raw = w.raw(false);
+    let bands: Vec<u32> = raw.bands.keys().copied().collect();
+    let complete: BTreeSet<u32> = raw.complete_bands().into_iter().collect();
+    let a = Arch { world: w, bands: bands.clone(), complete, desc };
+    let before = fmt06::dir_bytes(&a.world.arch);
+    for d in [vec![], vec![bands[1]], vec![bands[0]]] {
+        let replay = json!({"many_hunks": true, "delete": d, "history": a.desc});
+        let r = run_delete(&a, &d, false, Mode::Log);
+        run.eval();
+        run.count("real_deletes", 1);
+        run.count("deletes_on_versions_with_more_than_10000_hunks", 1);
+        let ok = judge_real_delete(run, &a, &d, &r, &before, &replay);
+        crate::scratch::rm(&r.arch);
+        if !ok {
+            return;
+        }
+    }
+}
+
 pub fn run(tier: Tier, replay: Option<Value>) -> i32 {
     let run = Run::new("C05", "fault_enumeration", tier, replay.clone());
     let n_arch = tier.pick(5u64, 150);
+    let scale_replay = replay.as_ref().and_then(|r| r.get("many_hunks")).is_some();
+    if scale_replay {
+        super::alongside(&run, "the many-hunks deletes", || many_hunks(&run), || ());
+        return run.finish("replay", &[], None, &[]);
+    }
+    let bulk = || {
     // build archives first (cheap), then shard (archive, subset) pairs
     let mut work: Vec<(u64, usize)> = Vec::new();
     let mut archs: BTreeMap<u64, (Arch, Vec<Vec<u32>>)> = BTreeMap::new();
@@ -397,10 +449,17 @@ pub fn run(tier: Tier, replay: Option<Value>) -> i32 {
             });
         }
     });
+    };
+    if replay.is_none() {
+        // started first and run alongside: the soft time budget never skips it
+        super::alongside(&run, "the many-hunks deletes", || many_hunks(&run), bulk);
+    } else {
+        bulk();
+    }
     run.finish(
-        "archives from short histories (2-4 versions sharing combined blocks, optionally an interrupted band in the middle and garbage blocks from a hand-removed band); for each, every subset D of the bands when <= 4 (else 8 incl. none and all), named in a seeded random order and, for two or more versions, also newest first x {dry run, real}; with a GC_LOCK already present every delete must be refused and leave the archive (that lock included) byte-identical. Real runs: the fault-free delete must remove exactly D, leave other band directories byte-identical, leave exactly the blocks referenced by the remaining bands' own hunks (independent scan) and every kept complete version must restore exactly; then EVERY crash point k of the delete's trace and EVERY read/list_dir/metadata operation failing with each of 4 kinds: kept complete versions still restore exactly and no kept band has a dangling reference. Distinct = (history, D).",
+        "(first: gc, delete of the newer and of the older of two versions of a 10 040-file tree with one entry per hunk -- hunks in two index subdirectories -- judged like every other fault-free delete) archives from short histories (2-4 versions sharing combined blocks, optionally an interrupted band in the middle and garbage blocks from a hand-removed band); for each, every subset D of the bands when <= 4 (else 8 incl. none and all), named in a seeded random order and, for two or more versions, also newest first x {dry run, real}; with a GC_LOCK already present every delete must be refused and leave the archive (that lock included) byte-identical. Real runs: the fault-free delete must remove exactly D, leave other band directories byte-identical, leave exactly the blocks referenced by the remaining bands' own hunks (independent scan) and every kept complete version must restore exactly; then EVERY crash point k of the delete's trace and EVERY read/list_dir/metadata operation failing with each of 4 kinds: kept complete versions still restore exactly and no kept band has a dangling reference. Distinct = (history, D).",
         &["kill = no later storage effect", "E2 reader trusted"],
         Some(true),
-        &[("real_deletes", 10), ("crash_points", 100), ("read_faults", 100), ("deletes_that_removed_blocks", 3), ("kept_versions_restored_after_fault", 50)],
+        &[("real_deletes", 10), ("crash_points", 100), ("read_faults", 100), ("deletes_that_removed_blocks", 3), ("kept_versions_restored_after_fault", 50), ("deletes_on_versions_with_more_than_10000_hunks", 3)],
     )
 }
